@@ -213,3 +213,19 @@ def run_scenario(mod, sc: dict, keep: bool = False) -> Outcome:
     finally:
         ctx.close()
     return out
+
+
+def open_reader(prop, paths, **kw):
+    """Open the harness-written (valid, contiguous unless stated) file set with the library's reader.
+    A refusal here is the library failing on a valid input, i.e. a violation - not a harness error."""
+    from sigpyproc.readers import FilReader
+
+    try:
+        return FilReader(paths, **kw)
+    except (SimCrash, SimLivelock):
+        raise
+    except Exception as e:  # noqa: BLE001
+        import os
+
+        raise Violation(f"{prop}/open/reader-refused-a-valid-file-set", repr(e)[:300],
+                        {"api": "FilReader", "files": [os.path.basename(p) for p in paths]}) from None
